@@ -81,7 +81,7 @@ def to_basic_valid(node, raw, ctx, _as_key=False):
         b = r.v if isinstance(r, OK) and isinstance(r.v, bytes) else b""
         return b.hex() if node.get("o", {}).get("encoding") == "hex" else base64.b64encode(b).decode()
     if k == "challenge":
-        return raw if isinstance(raw, str) else raw.decode("utf-8", "replace")
+        return raw.decode("utf-8", "replace") if isinstance(raw, bytes) else raw
     if k == "list":
         item = node.get("item")
         xs = list(raw) if isinstance(raw, (list, tuple)) else raw
